@@ -359,11 +359,12 @@ pub fn default_literal(m: &Module, ty: &Type, salt: u64) -> Option<Lit> {
             Some(Lit::Str(st))
         }
         Type::Enumerated { items, .. } => {
-            // only through a reference: the literal must be resolvable by name
-            if let Type::Ref(_) = ty {
-                Some(Lit::EnumItem(items[salt as usize % items.len()].0.clone()))
-            } else {
-                None
+            // only through a reference that names the ENUMERATED itself: asn1rs resolves an item
+            // name only there (through an alias of the type it is rejected as unknown value
+            // reference - a refusal, which the properties allow for unsupported constructs)
+            match ty {
+                Type::Ref(n) if matches!(m.def(n).map(|d| &d.ty), Some(Type::Enumerated { .. })) => Some(Lit::EnumItem(items[salt as usize % items.len()].0.clone())),
+                _ => None,
             }
         }
         _ => None,
